@@ -166,7 +166,12 @@ class ReceivingMessage:
         else:
             self.data = payload
         if self.flags & FLAGS_COMPRESSED:
-            self.data = zlib.decompress(self.data)
+            # (zlib.decompress would silently ignore whatever follows the end of the compressed stream)
+            decompressor = zlib.decompressobj()
+            data = decompressor.decompress(self.data)
+            if not decompressor.eof or decompressor.unused_data:
+                raise errors.ProtocolError("compressed payload is not exactly one complete zlib stream")
+            self.data = data
             self.flags &= ~FLAGS_COMPRESSED
             self.data_size = len(self.data)
 
